@@ -619,6 +619,16 @@ func (x *Exec) typeAssert(fr *Frame, st *State, w *ssa.TypeAssert) Value {
 		val = iv
 	} else {
 		cond = Eq(iv.Tag, x.typeTag(at))
+		if pt, ok := at.Underlying().(*types.Pointer); ok {
+			if nt, ok := pt.Elem().(*types.Named); ok && nt.Obj().Pkg() != nil {
+				for _, p := range x.prog.cs.BoxedNonNil {
+					if qual(nt.Obj().Pkg()) == p {
+						st.assume(Imp(cond, Not(Eq(iv.Data, TZero))))
+						x.usedTypeInv["boxednonnil "+p] = true
+					}
+				}
+			}
+		}
 	}
 	if w.CommaOk {
 		if val == nil {
@@ -725,7 +735,12 @@ func (x *Exec) selectOp(fr *Frame, st *State, w *ssa.Select) Value {
 	idx := x.freshConst(st, "select", SInt)
 	st.assume(And(Ge(idx, IntLit(-1)), Lt(idx, IntLit(int64(len(w.States))))))
 	res := []Value{&Prim{T: idx}, &Prim{T: x.freshConst(st, "recvok", SBool)}}
-	for _, s := range w.States {
+	for i, s := range w.States {
+		if p, ok := x.get(fr, st, s.Chan).(*Prim); ok && p.DoneOf != nil {
+			// receiving from ctx.Done() means the context is done (ghost ctxdone)
+			_, arr := x.ghostLeaf(st, "ctxdone", SBool)
+			st.assume(Imp(Eq(idx, IntLit(int64(i))), Select(arr, *p.DoneOf)))
+		}
 		if s.Dir == types.RecvOnly {
 			ct := s.Chan.Type().Underlying().(*types.Chan).Elem()
 			res = append(res, x.symbolic(st, ct, "recv", false))
